@@ -176,6 +176,20 @@ func (c09) Gen(tier string, seed int64, emit func([]Ev)) {
 						}
 						e["field"], e["plan"], e["fresh"] = []string{"seg.comps", "seg.mid"}[w-2], plan, fresh
 						e["arg"] = []Ev{} // resolved at execution time from the views read before the call
+						if r.Intn(3) != 0 {
+							// make sure there is something to reorder: a fresh list of 2..4 entries first
+							pre := Ev{"op": "set", "target": e["target"], "field": e["field"]}
+							l := []Ev{}
+							for q := 2 + r.Intn(3); q > 0; q-- {
+								if w == 2 {
+									l = append(l, Ev{"tag": r.Intn(256), "off": W64(rnd33(r))})
+								} else {
+									l = append(l, Ev{"type": []int{9, 14, 1}[r.Intn(3)], "upid": B(rndBytes(r, 1+r.Intn(9)))})
+								}
+							}
+							pre["arg"] = l
+							h = append(h, pre)
+						}
 					} else if w == 0 {
 						m := []Ev{}
 						for q := r.Intn(3); q > 0; q-- {
@@ -472,8 +486,8 @@ func c09Set(e Ev, st *c09State) {
 				res := []Ev{}
 				for k, ix := range GIs(plan) {
 					var u scte35.UPID
-					if ix >= 0 && ix < len(own) {
-						u = own[ix]
+					if ix >= 0 && len(own) > 0 {
+						u = own[ix%len(own)]
 					} else {
 						m := asMap(fresh[k])
 						u = scte35.CreateUPID()
@@ -506,8 +520,8 @@ func c09Set(e Ev, st *c09State) {
 				res := []Ev{}
 				for k, ix := range GIs(plan) {
 					var c scte35.ComponentOffset
-					if ix >= 0 && ix < len(own) {
-						c = own[ix]
+					if ix >= 0 && len(own) > 0 {
+						c = own[ix%len(own)]
 					} else {
 						m := asMap(fresh[k])
 						c = scte35.CreateComponentOffset()
